@@ -21,11 +21,11 @@ CHECKS = {
         note=NOTE, technique="bounded-exhaustive enumeration of programs; token-tree comparison of recorded macro input vs output (identity model)",
         ref="DESIGN.md §3 C02"),
     "C03": dict(
-        text="9 dependency forms (&impl, unused `_: &impl`, &D inline / where-bound, by-value generic / impl, concrete by reference and by value, no_deps) x every "
-             "extra-parameter word <= 1 (quick) / <= 2 (thorough) over 20 symbols {i64, &X elided, &'b X named, T: Bound inline, U where-bound, [u8; N] with const N, impl "
-             "Trait, &dyn, fn pointer, impl Fn, Box<dyn>, slice, tuple, where-predicates naming 'static / for<> before a fn lifetime, outlives-related lifetimes, "
+        text="10 dependency forms (&impl, unused `_: &impl`, &D inline / declared after the const parameters / where-bound, by-value generic / impl, concrete by reference and by value, no_deps) x every "
+             "extra-parameter word <= 1 (quick) / <= 2 (thorough) over 21 symbols {i64, &X elided, &'b X named, T: Bound inline, U where-bound, [u8; N] with const N, impl "
+             "Trait, &dyn, fn pointer, impl Fn, Box<dyn>, slice, tuple, where-predicates naming 'static / for<> before a fn lifetime or a fn lifetime inside the arguments of a trait bound, outlives-related lifetimes, "
              "destructuring / mut / wildcard patterns} x container {single fn, one of two fns of a module, next to a twin fn with the same generic parameter names} x qualifiers {none, async, unsafe, extern \"C\", unsafe extern \"C\", async unsafe} x 9 return kinds (unit, owned, borrowed from deps elided / named, "
-             "borrowed from an argument, generic T, Result, Option<&'a>, impl Trait) x options {none, mock_api, mockall, ?Send} x both features (~21.6k states "
+             "borrowed from an argument, generic T, Result, Option<&'a>, impl Trait) x options {none, mock_api, mockall, ?Send} x both features (~23k states "
              "in quick). Each state is compiled to a fixpoint (every rustc error attributed to its state, borrowck included) and run; for sync fns the function "
              "and the trait method must both coerce to the one most-general fn-pointer type written by the generator (higher-ranked lifetimes, unsafe / extern "
              "qualifiers), for async fns the Output is ascribed; scope witnesses check that a return borrowed from deps does not depend on the arguments and "
@@ -37,13 +37,13 @@ CHECKS = {
              "x 8 mock settings (none, mockall, mockall=false, mock_api only, mock_api+unimock, unimock=false, unimock=false+mockall, mock_api+mockall=false) x both crate features for single fns, and "
              "all 64 pairs (S1,S2) x receiver combinations x mock settings for two-fn modules (three-fn modules in thorough). Per state 48 runtime "
              "availability probes `implements!(X: Tr)` / `implements!(Impl<X>: Tr)` over probe types implementing exactly each subset in three auto-trait "
-             "flavours (everything / Sync-only / Send-only) must equal the model's iff; plus a negative compile probe for 'static per declaration form.",
+             "flavours (everything / Sync-only / Send-only) must equal the model's iff; a second naming scheme (two different traits whose paths end in the same segment) and modules whose fns carry an enabled `#[cfg]` are enumerated too; plus a negative compile probe for 'static per declaration form.",
         note=NOTE + " 'static is decided by a negative compile probe on one witness type (lifetimes are invisible to runtime probes).",
         technique="exhaustive enumeration of bound-declaration programs on the real macro; runtime trait-availability truth table vs iff model",
         ref="DESIGN.md §3 C04"),
     "C05": dict(
-        text="8 concrete dependency type shapes (ident, path, generic instantiation, tuple, array, reference with explicit lifetime, lifetime-parameterised type elided / named by a fn lifetime) plus a macro_rules-stamped "
-             "fn whose concrete type is a macro argument x sync/async x ?Send with a genuinely non-Send body x owned/borrowed return x every argument word <= 2 "
+        text="8 concrete dependency type shapes (ident, path, generic instantiation, tuple, array, reference with explicit lifetime, lifetime-parameterised type elided / named by a fn lifetime) plus macro_rules-stamped "
+             "fns whose concrete type is an `ident` / a `ty`-fragment macro argument x sync/async x ?Send with a genuinely non-Send body x owned/borrowed return x every argument word <= 2 "
              "(quick) / <= 3 (thorough) over {i64, &str, generic T}: the client "
              "calls the function directly, through the trait on C, through <Impl<C> as Tr> and through <Impl<App> as Tr> with a hand-written `impl Tr for App` "
              "(the README 'case 1' hop); each must produce exactly one event with the right C as dependency (address), arguments in order and the model's "
@@ -52,7 +52,7 @@ CHECKS = {
         technique="exhaustive enumeration of concrete-dependency programs on the real macro; executed trace + availability probes vs model",
         ref="DESIGN.md §3 C05"),
     "C06": dict(
-        text="Every method word of length <= 2 (quick) / <= 3 (thorough) over 19 method shapes (provided methods incl. `where Self: Sized` and pattern parameters, macro_rules-stamped hygiene shapes incl. a macro-named method, unsafe / extern methods, 0-2 arguments incl. same-typed adjacent ones, &str, borrowed "
+        text="Every method word of length <= 2 (quick) / <= 3 (thorough) over 21 method shapes (provided methods incl. `where Self: Sized` and pattern parameters, macro_rules-stamped hygiene shapes incl. a macro-named method, unsafe / extern methods, the typed receiver `self: &Self`, const-before-type method generics, 0-2 arguments incl. same-typed adjacent ones, &str, borrowed "
              "returns from arguments and from self, trait-generic and method-generic parameters, four async shapes) x selector {default, Self, ref, Borrow} x "
              "{non-generic, generic, bound+default generic, const-before-type generic} trait x supertrait/where clause x {native async, async_trait} is compiled and run against a tracing provider: one event per call, on "
              "the provider reached through the selected route (address), arguments in order, result unchanged; and `Impl<X>: Trait` is probed at run time "
@@ -73,7 +73,7 @@ CHECKS = {
         text="Every module item word up to the bound (full 31-symbol alphabet: every visibility and every const/async/unsafe/extern "
              "qualifier combination on visible and private fns, structs+impls, nested mods, extern blocks, macro_rules, body-less "
              "declarations, consts with blocks, uses, statics, traits; longer words over a 14-symbol core alphabet) x requested trait "
-             "visibility (none, pub, pub(crate), pub(in path)), plus macro_rules-stamped modules (block / expr / ty / vis / ident / item fragments) and exporting invocations on the short words, is expanded by the real macro; the method list of the generated trait must equal the model's filter "
+             "visibility (none, pub, pub(crate), pub(in path)), plus macro_rules-stamped modules (block / expr / ty / vis / ident / item fragments, item fragments ending in `;`, nested fragments, same-named cfg alternatives) and exporting invocations on the short words, is expanded by the real macro; the method list of the generated trait must equal the model's filter "
              "(visible fn with a body, source order) and, where the word can compile, a client in the parent scope and at crate level "
              "calls every expected method through the re-export.",
         note=NOTE, technique="bounded-exhaustive enumeration of module bodies; structural view of recorded expansion + executed client vs filter model",
@@ -101,7 +101,7 @@ CHECKS = {
         text="(unimock feature on, --cfg test) Every argument word <= 2 (quick) / <= 3 (thorough) over {i64, &str, destructured tuple} x deps {&impl, &D, "
              "no_deps, concrete} x sync/async for single fns, modules of three same-signature fns declared in non-alphabetical order, entraited traits with "
              "three same-signature methods, macro_rules-stamped fns whose parameters differ only in hygiene, a `#[cfg]`-attributed module fn, and the same wiring spelled through "
-             "entrait_export / explicit export / export=false / mockall, and on `unsafe fn` / `?Send` invocations: the mock API must resolve under exactly the "
+             "entrait_export / explicit export / export=false / mockall, and on `unsafe fn` / `?Send` invocations and with a parameter named like the fn: the mock API must resolve under exactly the "
              "mock_api name; a clause matching the position-coded arguments answers the call and a clause with permuted arguments does not; on "
              "Unimock::new_partial(()) the ORIGINAL function must run once with the Unimock instance as deps (address + type name), same arguments, same "
              "result as the Impl<T> path; concrete-deps fns and entraited traits must panic with 'cannot be unmocked'.",
@@ -128,7 +128,7 @@ CHECKS = {
         ref="DESIGN.md §3 C13"),
     "C14": dict(
         text="Bottom-level input mode {fn, mod, entraited trait, trait + static impl block} x sync/async x call-chain depth 1..3 (1..5 thorough) x arity "
-             "0..2 x {elided, named lifetime, two lifetimes with an outlives bound, generic async method, provided method mentioning its own name, method taking `self` by value, mockall + return-position `impl Trait`}: level i of the chain allocates exactly i boxes, the client counts heap allocations "
+             "0..2 x {elided, named lifetime, two lifetimes with an outlives bound, generic async method, provided method mentioning its own name, method taking `self` by value, mockall + return-position `impl Trait`, `&mut` parameters, explicit `delegate_by = Self`, provided async method awaiting a sibling}: level i of the chain allocates exactly i boxes, the client counts heap allocations "
              "(counting global allocator, allocation-free executor) around the direct call and around the call through the generated trait; both must "
              "equal d(d+1)/2 and give the same result; the generated part of every recorded expansion must not mention dyn / Box / Pin / async_trait.",
         note=NOTE + " Debug build: Box::new allocates exactly once.",
@@ -138,24 +138,24 @@ CHECKS = {
         text="(i) every attribute-argument token word up to length 3 (quick) / 4 (thorough) over a 23-token alphabet (option names, values, "
              "punctuation, keywords, literals, a parenthesised group) on fn, mod, trait and impl items (~50k invocations in quick); (ii) 60 documented-misuse "
              "and unsupported-item cases x both macro names, each in its own compiler process; (iii) every trait-method parameter-pattern word "
-             "<= 2 over 10 patterns x {declaration, default body} x 6 delegation kinds; (iv) fn-signature pattern words x 4 contexts x {f, r#type}; (v) every sequence <= 2 (3) of 10 item shapes (where "
+             "<= 2 over 10 patterns x {declaration, default body} x 6 delegation kinds (x receiver {&self, none, self, &mut self} on words <= 1); (iii-b) every ordered selection of <= 2 (3) of 11 well-formed options x 4 item kinds x 2 macro names; (iv) fn-signature pattern words x 4 contexts x {f, r#type}; (v) every sequence <= 2 (3) of 10 item shapes (where "
              "clauses with / without trailing comma, lifetime-only dependency bounds, HRTB predicates, async, body-less declarations with and without visibility) inside one module / impl block. For every invocation: no panic record and no `custom attribute "
              "panicked`, the recorded output parses as Rust items, a rejection is reported by rustc inside the invocation's own lines; documented misuses "
              "give their specific message on the line of the offending tokens.",
         note=NOTE, technique="bounded-exhaustive enumeration of attribute token words / item kinds / pattern words through the real macro; diagnostic-channel oracle",
         ref="DESIGN.md §3 C15"),
     "C16": dict(
-        text="Every pattern word up to length 3 (quick) / 4 (thorough) over a 15-symbol pattern alphabet (plain, mut, ref, raw identifier, wildcard, "
+        text="Every pattern word up to length 3 (quick) / 4 (thorough) over a 17-symbol pattern alphabet (plain, mut, ref, raw identifier, wildcard, "
              "tuple, tuple-struct with 1 binding, with binding+wildcard, struct pattern, reference pattern, binding named like the function, bindings "
-             "named like would-be generated names argN/_argN/f_, destructuring whose binding is the function name) x {generic deps, no_deps, module fn, "
-             "impl-block fn, provided method of an entraited trait, required method of an entraited trait (identifiers and `_` only)} x fn name {f, r#type} is compiled and run; the generated method's parameter list must satisfy the naming specification and "
+             "named like would-be generated names argN/_argN/f_, destructuring whose binding is the function name, the function's name / a would-be generated name in the other raw-or-plain spelling) x {generic deps, no_deps, module fn, "
+             "impl-block fn, provided method of an entraited trait, required method of an entraited trait (identifiers and `_` only), macro_rules-stamped fn with the trait name as macro argument} x fn name {f, r#type, r#g, arg1} is compiled and run; the generated method's parameter list must satisfy the naming specification and "
              "the trait call must forward position-coded arguments positionally.",
         note=NOTE, technique="bounded-exhaustive enumeration of pattern lists on the real macro; specification model + executed trace",
         ref="DESIGN.md §3 C16"),
     "C17": dict(
         text="State graph whose nodes are option sets and whose edges append one option: every ordered selection of the six fn/mod options "
              "and the five trait options (every path into every node), plus all 4^4 value-form combinations {absent,bare,=true,=false} of the "
-             "boolean options x mock_api x ?Send, under both macro names and both crate features, on fn / concrete-deps fn / parameterless fn / mod / trait / impl items (~11.6k invocations). "
+             "boolean options x mock_api x ?Send, the `debug` option in every form and position on five base invocations, under both macro names and both crate features, on fn / concrete-deps fn / parameterless fn / mod / trait / impl items (~11.6k invocations). "
              "Invocations with the same semantic key (derived from the statement and the option table's defaults only) must expand to identical token trees - for concrete-deps fns whose "
              "arguments set `unimock` explicitly the nested expansion on the generated trait is compared as well; options outside "
              "their documented target must be rejected, documented ones accepted.",
@@ -171,12 +171,12 @@ CHECKS = {
         note=NOTE, technique="bounded-exhaustive enumeration of attribute placements on the real macro; structural view + executed client + helper-macro invocation log",
         ref="DESIGN.md §3 C18"),
     "C19": dict(
-        text="19 programs (every input mode x delegation kind, sync and async, ?Send, by-value, concrete, no_deps, static/dyn/Borrow targets, async_trait), all invoked by "
-             "absolute path with no imports, x {empty scope, each of 20 local decoy items alone (traits Send/Sync/Sized/Future/AsRef/Borrow/Unpin, structs "
+        text="22 programs (every input mode x delegation kind, sync and async, ?Send, by-value, concrete, no_deps, static/dyn/Borrow targets, delegation-target traits carrying the hostile name, provided methods using `self`, async_trait), all invoked by "
+             "absolute path with no imports, x {empty scope, each of 24 local decoy items alone (real imports of Borrow / Deref / IntoFuture / Any / ToOwned .., traits Send/Sync/Sized/Future/AsRef/Borrow/Unpin, structs "
              "Impl/Box/Pin, modules core/entrait/std/alloc/future/marker/convert/borrow, value-namespace unit structs and consts), all decoys together, the "
              "trait itself named Send/Sync/Sized/Future/AsRef/Impl/Box/Unpin, six macro_rules hygiene splits (whole program in a macro body; trait names / every fn, parameter and module "
              "name as macro arguments; both; attribute in the body and item passed in; the reverse)}: each state is compiled and run and must give the model's values and the same "
-             "observations as in the empty scope; one #![no_std] lib crate holds every mode; every path of the generated part of every recorded expansion "
+             "observations as in the empty scope; one #![no_std] lib crate holds every mode; one lib crate whose only dependency is entrait (unimock feature on, test and non-test build) holds every mock-deriving mode; every path of the generated part of every recorded expansion "
              "must be rooted at ::entrait/::core, a macro-introduced generic/receiver, or be copied from the input.",
         note=NOTE + " Decoys named Box/Pin are not applied to programs that go through the third-party async_trait macro (its own expansion is not hygienic).",
         technique="exhaustive enumeration of (program x hostile scope) on the real macro; differential + model oracle, structural path-root scan",
